@@ -47,7 +47,8 @@ class Gen:
         modes = ["+o", "-o", "+v", "+b", "-b", "+e", "+I", "+k", "-k", "+l", "-l", "+i", "+imnst", "-imnst",
                  "+q", "+a", "+h", "-q", "+ooo", "+o-o+o", "+lk", "+kl", "+bbb", "+b-b", "+Z", "+", "-", "+-",
                  "o", "+w", "+i", "-i", "+o", "+O", "-O", "+r", "-r", "+iwoOr", "-iwoOr", "+l+l+l", "+beI",
-                 "+ov", "-qa", "+" + "o" * 40, "+" + "b" * 40]
+                 "+ov", "-qa", "+" + "o" * 40, "+" + "b" * 40, "+ol", "+hl", "+al", "+ql", "+ok", "+olk", "+ob", "+ab",
+                 "+qk", "+hk", "+oll", "+aol"]
         if verb == "MODE" and pos >= 1 and k < 0.75:
             return r.choice(modes) if (pos == 1 or r.random() < 0.4) else r.choice(pool_generic)
         if verb == "CAP" and pos == 0 and k < 0.8:
